@@ -325,6 +325,8 @@ func (p c18) battery(env *Env) (*Case, []*Out) {
 			nf.Doc = addProp(withDef(withDef(cloneObj(t0.Doc), "OddTarget", Obj{{"type", "object"}, {"properties", Obj{{"x", Obj{{"type", "string"}}}}}}), "OddPrim", Obj{{"type", "string"}, {"minLength", 2}}), "odd0", o.v)
 			spec := w2.Spec("", nil, args)
 			spec.FS = append(spec.FS, oddFiles("/w/a")...)
+			spec.Web = append(spec.Web, oddWeb()...)
+			spec.Web = append(spec.Web, oddWeb()...)
 			for i := range spec.FS {
 				if spec.FS[i].Path == "/w/a/t0f.json" {
 					spec.FS[i].Data = nf.Bytes(nil)
@@ -1654,6 +1656,41 @@ func (p c18) Nontrivial(c *Case, outs []*Out) bool {
 // of them except the T, S1 and A clauses: the tool may accept or reject them,
 // never crash, hang, or fail half-way.
 var oddityTexts = []struct{ name, json string }{
+	// a keyword whose value has another JSON type than usual: the tuple form of items (drafts 3 to 2019-09), empty
+	// or not; arrays, strings and numbers where a subschema, a list or a name is expected. Accepting or rejecting is
+	// the tool's choice - crashing is not (seeded change s99: an empty tuple indexed without a length check)
+	{"items-empty-tuple", "{\"type\": \"array\", \"items\": []}"},
+	{"items-tuple", "{\"type\": \"array\", \"items\": [{\"type\": \"string\"}, {\"type\": \"integer\"}]}"},
+	{"items-tuple-same", "{\"type\": \"array\", \"items\": [{\"type\": \"string\"}, {\"type\": \"string\"}]}"},
+	{"items-tuple-of-one", "{\"type\": \"array\", \"items\": [{\"type\": \"string\"}]}"},
+	{"not-empty-array", "{\"type\": \"string\", \"not\": []}"},
+	{"additional-properties-empty-array", "{\"type\": \"object\", \"additionalProperties\": []}"},
+	{"property-is-empty-array", "{\"type\": \"object\", \"properties\": {\"a\": []}}"},
+	{"properties-is-array", "{\"type\": \"object\", \"properties\": []}"},
+	{"properties-is-string", "{\"type\": \"object\", \"properties\": \"a\"}"},
+	{"required-is-string", "{\"type\": \"object\", \"properties\": {\"a\": {\"type\": \"string\"}}, \"required\": \"a\"}"},
+	{"required-is-true", "{\"type\": \"object\", \"properties\": {\"a\": {\"type\": \"string\"}}, \"required\": true}"},
+	{"enum-is-object", "{\"type\": \"string\", \"enum\": {\"a\": 1}}"},
+	{"enum-is-string", "{\"type\": \"string\", \"enum\": \"a\"}"},
+	{"type-is-number", "{\"type\": 7}"},
+	{"type-is-object", "{\"type\": {\"a\": 1}}"},
+	{"type-list-of-numbers", "{\"type\": [1, 2]}"},
+	{"allof-is-object", "{\"allOf\": {\"type\": \"string\"}}"},
+	{"allof-empty", "{\"type\": \"object\", \"allOf\": []}"},
+	{"anyof-empty", "{\"type\": \"object\", \"anyOf\": []}"},
+	{"anyof-of-one", "{\"anyOf\": [{\"type\": \"string\"}]}"},
+	{"minlength-is-string", "{\"type\": \"string\", \"minLength\": \"3\"}"},
+	{"minimum-is-string", "{\"type\": \"integer\", \"minimum\": \"3\"}"},
+	{"maxitems-fractional", "{\"type\": \"array\", \"items\": {\"type\": \"string\"}, \"maxItems\": 2.5}"},
+	{"minlength-negative", "{\"type\": \"string\", \"minLength\": -1}"},
+	{"pattern-invalid", "{\"type\": \"string\", \"pattern\": \"(\"}"},
+	{"defs-is-array", "{\"type\": \"object\", \"$defs\": []}"},
+	{"ref-is-number", "{\"$ref\": 5}"},
+	{"title-is-number", "{\"type\": \"string\", \"title\": 5}"},
+	{"description-is-array", "{\"type\": \"string\", \"description\": [\"a\"]}"},
+	{"format-is-number", "{\"type\": \"string\", \"format\": 1}"},
+	{"integer-bound-fractional", "{\"type\": \"integer\", \"minimum\": 0.5, \"maximum\": 9.5}"},
+	{"integer-exclusive-bound-fractional", "{\"type\": \"integer\", \"exclusiveMinimum\": 0.5, \"exclusiveMaximum\": 9.25}"},
 	{"empty-type-list", "{\"type\": []}"},
 	{"type-empty-string", "{\"type\": \"\"}"},
 	{"three-types", "{\"type\": [\"string\", \"integer\", \"null\"]}"},
@@ -1759,6 +1796,14 @@ var oddityTexts = []struct{ name, json string }{
 	{"min-items-only", "{\"type\": \"array\", \"items\": {\"type\": \"string\"}, \"minItems\": 0, \"maxItems\": 0}"},
 	{"readonly-writeonly", "{\"type\": \"string\", \"readOnly\": true, \"writeOnly\": true, \"deprecated\": true, \"examples\": [1, {}]}"},
 	{"ref-https", "{\"$ref\": \"https://example.com/s/none.json\"}"},
+	// remote documents behind redirects: a finite chain ends at the document, a cycle or an endless chain must end in a
+	// failure (the standard client gives up after ten hops) - never in a run that goes on for ever (seeded change s100:
+	// a redirect policy of its own, which silently replaces the default one and its limit)
+	{"ref-web-redirect-chain", "{\"$ref\": \"http://odd.example/hop1.json\"}"},
+	{"ref-web-redirect-cycle", "{\"$ref\": \"http://odd.example/loop-a.json\"}"},
+	{"ref-web-redirect-self", "{\"$ref\": \"http://odd.example/self.json#/$defs/X\"}"},
+	{"ref-web-redirect-no-location", "{\"$ref\": \"http://odd.example/nowhere.json\"}"},
+	{"ref-web-redirect-to-missing", "{\"$ref\": \"http://odd.example/gone.json\"}"},
 	{"ref-file-without-root", "{\"$ref\": \"oddrootless.json\"}"},
 	{"ref-file-without-root-fragment", "{\"$ref\": \"oddrootless.json#/$defs/OnlyDef\"}"},
 	{"ref-file-empty-object", "{\"$ref\": \"oddempty.json\"}"},
@@ -1801,6 +1846,22 @@ var oddities = func() []struct {
 	}
 	return out
 }()
+
+// oddWeb: the simulated web of the redirect oddities.
+func oddWeb() []simrt.WebEnt {
+	doc := []byte(`{"type": "object", "properties": {"x": {"type": "string"}}, "$defs": {"X": {"type": "string"}}}`)
+	r := func(from, to string) simrt.WebEnt {
+		return simrt.WebEnt{URL: "http://odd.example/" + from, Status: 302, Location: to, ContentType: "text/html", Body: []byte("<a href=\"" + to + "\">Found</a>.\n")}
+	}
+	return []simrt.WebEnt{
+		r("hop1.json", "/hop2.json"), r("hop2.json", "http://odd.example/hop3.json"), r("hop3.json", "final.json"),
+		{URL: "http://odd.example/final.json", ContentType: "application/json", Body: doc},
+		r("loop-a.json", "/loop-b.json"), r("loop-b.json", "/loop-a.json"),
+		r("self.json", "/self.json"),
+		{URL: "http://odd.example/nowhere.json", Status: 302, ContentType: "text/html", Body: []byte("Found\n")},
+		r("gone.json", "/no-such-document.json"),
+	}
+}
 
 // oddFiles: small documents for the whole-file reference oddities, placed next to the referring document.
 func oddFiles(dir string) []simrt.Node {
@@ -1889,6 +1950,7 @@ func genOddities(t *rapid.T, w *World, args []string, add addFn) {
 	abs := filepath.Join(w.Root, f.Rel())
 	spec := w.Spec("", nil, args)
 	spec.FS = append(spec.FS, oddFiles(filepath.Dir(abs))...)
+	spec.Web = append(spec.Web, oddWeb()...)
 	for i := range spec.FS {
 		if spec.FS[i].Path == abs {
 			spec.FS[i].Data = subst(nf.Bytes(nil), "", w.Root)
